@@ -7087,6 +7087,13 @@ class TensorDictBase(MutableMapping):
                             update_batch_size=update_batch_size,
                             ignore_lock=ignore_lock,
                         )
+                        if (
+                            update_batch_size
+                            and target.batch_size[: self.batch_dims] != self.batch_size
+                        ):
+                            # the nested tensordict was given the batch size of the source: this
+                            # level must follow (below), or it would not hold it coherently
+                            batch_size_changed = True
                         continue
                     elif isinstance(value, (dict,)) or _is_tensor_collection(
                         type(value)
@@ -7131,6 +7138,14 @@ class TensorDictBase(MutableMapping):
                                 update_batch_size=update_batch_size,
                                 ignore_lock=ignore_lock,
                             )
+                            if (
+                                update_batch_size
+                                and target.batch_size[: self.batch_dims]
+                                != self.batch_size
+                            ):
+                                # the nested tensordict was given the batch size of the source
+                                # (possibly several levels down): this level must follow (below)
+                                batch_size_changed = True
                         continue
                 # A tensor collection may still be a leaf so we need to duplicate the logic here
                 if (
